@@ -24,7 +24,7 @@ def jobserver_absent_edge(f):
     def present(a):
         a = strip(a)
         return isinstance(a, dict) and (
-            (a.get('k') == 'mem' and a['n'] in ('Plan::builder_', 'RealCommandRunner::jobserver_'))
+            (a.get('k') == 'mem' and a['n'] in ('Plan::builder_', 'RealCommandRunner::jobserver_', 'Builder::jobserver_'))
             or (a.get('k') == 'call' and basename(a.get('name') or '') == 'get' and
                 mentions_field(a.get('recv'), 'Builder::jobserver_')))
 
